@@ -193,7 +193,8 @@ def report(prop, spec, tier, seed, results, extra, t0, common, partial=False):
         for v in r['vcs']:
             if only is not None and v['kind'] not in ('vacuity', 'note', 'translate'):
                 clause = v['name'].split('#', 1)[-1].split('@')[0]
-                if not any(clause.startswith(pfx) for pfx in only):
+                # (call-site preconditions inside the function are kept under every property the contract serves)
+                if not clause.startswith('call ') and not any(clause.startswith(pfx) for pfx in only):
                     continue          # a clause of this shared contract that another property rests on, not this one
             if v['kind'] == 'vacuity':
                 vac += 1
